@@ -155,6 +155,26 @@ def scan_forbidden(files=None):
     return hits
 
 
+_REQ = re.compile(r"From\s+ZI\s+Require\s+(?:Import|Export)?\s*([^.]*(?:\.[A-Za-z_][\w']*[^.]*)*)\.\s", re.S)
+
+
+def coq_closure(targets):
+    """Source files (relative to coq/) the given .vo targets depend on, by following
+    ``From ZI Require`` lines.  Used to scan only what a property actually relies on."""
+    todo = [t[:-1] if t.endswith(".vo") else t for t in targets]
+    seen = []
+    while todo:
+        f = todo.pop()
+        if f in seen or not os.path.exists(os.path.join(COQ, f)):
+            continue
+        seen.append(f)
+        text = open(os.path.join(COQ, f)).read()
+        for m in re.finditer(r"From\s+ZI\s+Require\s+(?:Import\s+|Export\s+)?(.*?)\.(?=\s)", text, re.S):
+            for mod in m.group(1).split():
+                todo.append(mod.replace(".", "/") + ".v")
+    return sorted(seen)
+
+
 class CoqLock:
     def __enter__(self):
         os.makedirs(COQ, exist_ok=True)
